@@ -102,8 +102,8 @@ pub const HARNESSES: &[HarnessDef] = &[
     HarnessDef { name: "vclock", presets: &["calm", "moderate", "chaos"], n: (100, 2000), n_thorough: 10000, cases: (40, 400) },
     HarnessDef { name: "dst", presets: &["new", "calm", "chaos", "chaos8"], n: (100, 1200), n_thorough: 1500, cases: (40, 400) },
     HarnessDef { name: "redis_dst", presets: &["zipf", "uniform", "calm", "chaos"], n: (100, 600), n_thorough: 1300, cases: (40, 400) },
-    HarnessDef { name: "multi_broadcast", presets: &["plain", "lossy", "partitions", "lossy_partitions", "busy"], n: (60, 250), n_thorough: 800, cases: (40, 400) },
-    HarnessDef { name: "multi_partitioned", presets: &["single_target", "single_target_partitions", "rf3", "rf3_lossy", "rf3_partitions", "rf2_any_node", "busy"], n: (60, 250), n_thorough: 800, cases: (40, 400) },
+    HarnessDef { name: "multi_broadcast", presets: &["plain", "lossy", "partitions", "lossy_partitions", "busy", "burst", "burst_partitions", "ae_limit"], n: (60, 250), n_thorough: 800, cases: (40, 400) },
+    HarnessDef { name: "multi_partitioned", presets: &["single_target", "single_target_partitions", "rf3", "rf3_lossy", "rf3_partitions", "rf2_any_node", "busy", "burst"], n: (60, 250), n_thorough: 800, cases: (40, 400) },
     HarnessDef { name: "partition", presets: &["isolate", "split_brain", "asymmetric", "ring", "isolate_mw", "split_brain_mw", "asymmetric_mw", "ring_mw"], n: (100, 160), n_thorough: 400, cases: (40, 400) },
     HarnessDef { name: "streaming", presets: &["new", "calm", "moderate", "chaos"], n: (100, 160), n_thorough: 400, cases: (12, 100) },
     HarnessDef { name: "compaction", presets: &["new", "calm", "aggressive", "chaos"], n: (100, 160), n_thorough: 400, cases: (10, 80) },
@@ -575,7 +575,73 @@ fn round_step(wl: &mut DeterministicRng, fine: bool) -> u64 {
     }
 }
 
+/// Anti-entropy at its per-sync key limit (AntiEntropyConfig::max_keys_per_sync = 1000): node 0
+/// is cut off, takes 999 / 1000 / 1001 / 1100 distinct keys in chunks below the pending-delta
+/// capacity, then the partitions heal.
+fn multi_ae_limit(seed: u64, n: usize) -> Result<Transcript, String> {
+    use redis_sim::simulator::multi_node::MultiNodeSimulation;
+    let mut wl = DeterministicRng::new(seed ^ 0xAE11_0001);
+    let total = [999usize, 1000, 1001, 1100][wl.gen_range(0, 4) as usize];
+    let mut sim = MultiNodeSimulation::new(3, seed).with_packet_loss(0.05);
+    let mut t = Transcript::new();
+    t.lines.push(format!("config = ae_limit keys {} rounds-after {}", total, n.min(40)));
+    sim.partition(0, 1);
+    sim.partition(0, 2);
+    let sample: std::collections::BTreeSet<String> = (0..12).map(|i| format!("wk{}", i * total / 12)).collect();
+    hook(Point::Constructed);
+    let mut written = 0usize;
+    let mut round = 0usize;
+    while written < total {
+        let chunk = (90 + wl.gen_range(0, 10) as usize).min(total - written);
+        for j in written..written + chunk {
+            sim.execute(0, 0, cmd(&["SET", &format!("wk{}", j), &format!("v{}", j)])?);
+        }
+        // the other side writes too (so that both directions have something to sync)
+        let o = 1 + wl.gen_range(0, 2) as usize;
+        sim.execute(1, o, cmd(&["SET", &format!("ok{}", round), "x"])?);
+        written += chunk;
+        sim.advance_time_ms(round_step(&mut wl, true));
+        sim.gossip_round();
+        multi_snapshot(&mut t, &mut sim, &format!("fill[{}]", round), &sample);
+        round += 1;
+    }
+    hook(Point::Mid);
+    sim.heal_partition(0, 1);
+    multi_snapshot(&mut t, &mut sim, "healed01", &sample);
+    sim.heal_partition(0, 2);
+    multi_snapshot(&mut t, &mut sim, "healed02", &sample);
+    for r in 0..n.min(40) {
+        if r % 5 == 0 {
+            sim.execute(2, r % 3, cmd(&["SET", &format!("wk{}", wl.gen_range(0, total as u64)), &format!("late{}", r)])?);
+        }
+        sim.advance_time_ms(round_step(&mut wl, true));
+        sim.gossip_round();
+        multi_snapshot(&mut t, &mut sim, &format!("settle[{}]", r), &sample);
+    }
+    t.dbg("final.anti_entropy_syncs", &sim.anti_entropy_syncs);
+    for (ni, node) in sim.nodes.iter().enumerate() {
+        let mut ks: Vec<&String> = node.replica_state.replicated_keys.keys().collect();
+        ks.sort();
+        t.lines.push(format!("node[{}].keys = {}", ni, ks.len()));
+        let mut h = 0xcbf29ce484222325u64;
+        for k in ks {
+            h ^= vcore::fnv64_str(&format!("{}={}", k, vcore::proj::peer_view(&node.replica_state.replicated_keys[k])));
+            h = h.wrapping_mul(0x100000001b3);
+        }
+        t.lines.push(format!("node[{}].state_hash = {:016x}", ni, h));
+    }
+    let all = (0..total).all(|j| sim.check_key_convergence(&format!("wk{}", j)));
+    t.dbg("verdict.all_converged", &all);
+    t.ops = (total + round + n.min(40)) as u64;
+    t.faults = Some(2);
+    Ok(t)
+}
+
 fn multi(partitioned: bool, seed: u64, preset: &str, n: usize) -> Result<Transcript, String> {
+    if !partitioned && preset == "ae_limit" {
+        return multi_ae_limit(seed, n);
+    }
+    let n = if preset.starts_with("burst") { n.min(60) } else { n };
     use redis_sim::replication::HashRing;
     use redis_sim::simulator::multi_node::{check_single_key_linearizability, MultiNodeSimulation};
     struct P {
@@ -592,20 +658,26 @@ fn multi(partitioned: bool, seed: u64, preset: &str, n: usize) -> Result<Transcr
         writers: (u64, u64),
         /// only 1..=5 ms steps besides the occasional long one
         fine: bool,
+        /// now and then ONE node takes 99..=251 writes between two gossip rounds: the tree's
+        /// MAX_PENDING_DELTAS (100) +- 1 and well beyond, distinct and repeated keys
+        burst: bool,
     }
     let p = match (partitioned, preset) {
-        (false, "plain") => P { nodes: 3, rf: 0, loss: 0.0, partitions: false, primary_only: false, delay: (1, 10), writers: (0, 3), fine: true },
-        (false, "lossy") => P { nodes: 4, rf: 0, loss: 0.2, partitions: false, primary_only: false, delay: (1, 25), writers: (1, 4), fine: false },
-        (false, "partitions") => P { nodes: 4, rf: 0, loss: 0.0, partitions: true, primary_only: false, delay: (1, 10), writers: (0, 4), fine: true },
-        (false, "lossy_partitions") => P { nodes: 5, rf: 0, loss: 0.1, partitions: true, primary_only: false, delay: (0, 30), writers: (1, 5), fine: false },
-        (false, "busy") => P { nodes: 4, rf: 0, loss: 0.05, partitions: false, primary_only: false, delay: (1, 10), writers: (3, 6), fine: true },
-        (true, "single_target") => P { nodes: 4, rf: 2, loss: 0.2, partitions: false, primary_only: true, delay: (1, 25), writers: (0, 1), fine: false },
-        (true, "single_target_partitions") => P { nodes: 4, rf: 2, loss: 0.2, partitions: true, primary_only: true, delay: (1, 25), writers: (0, 1), fine: false },
-        (true, "rf3") => P { nodes: 5, rf: 3, loss: 0.0, partitions: false, primary_only: false, delay: (1, 10), writers: (0, 3), fine: true },
-        (true, "rf3_lossy") => P { nodes: 5, rf: 3, loss: 0.2, partitions: false, primary_only: false, delay: (1, 25), writers: (1, 4), fine: false },
-        (true, "rf3_partitions") => P { nodes: 6, rf: 3, loss: 0.1, partitions: true, primary_only: false, delay: (1, 25), writers: (1, 5), fine: true },
-        (true, "rf2_any_node") => P { nodes: 4, rf: 2, loss: 0.0, partitions: false, primary_only: false, delay: (1, 10), writers: (2, 4), fine: true },
-        (true, "busy") => P { nodes: 5, rf: 3, loss: 0.05, partitions: false, primary_only: false, delay: (1, 10), writers: (3, 6), fine: true },
+        (false, "plain") => P { nodes: 3, rf: 0, loss: 0.0, partitions: false, primary_only: false, delay: (1, 10), writers: (0, 3), fine: true, burst: false },
+        (false, "lossy") => P { nodes: 4, rf: 0, loss: 0.2, partitions: false, primary_only: false, delay: (1, 25), writers: (1, 4), fine: false, burst: false },
+        (false, "partitions") => P { nodes: 4, rf: 0, loss: 0.0, partitions: true, primary_only: false, delay: (1, 10), writers: (0, 4), fine: true, burst: false },
+        (false, "lossy_partitions") => P { nodes: 5, rf: 0, loss: 0.1, partitions: true, primary_only: false, delay: (0, 30), writers: (1, 5), fine: false, burst: false },
+        (false, "busy") => P { nodes: 4, rf: 0, loss: 0.05, partitions: false, primary_only: false, delay: (1, 10), writers: (3, 6), fine: true, burst: false },
+        (false, "burst") => P { nodes: 4, rf: 0, loss: 0.05, partitions: false, primary_only: false, delay: (1, 10), writers: (0, 3), fine: true, burst: true },
+        (false, "burst_partitions") => P { nodes: 4, rf: 0, loss: 0.0, partitions: true, primary_only: false, delay: (1, 10), writers: (0, 3), fine: true, burst: true },
+        (true, "single_target") => P { nodes: 4, rf: 2, loss: 0.2, partitions: false, primary_only: true, delay: (1, 25), writers: (0, 1), fine: false, burst: false },
+        (true, "single_target_partitions") => P { nodes: 4, rf: 2, loss: 0.2, partitions: true, primary_only: true, delay: (1, 25), writers: (0, 1), fine: false, burst: false },
+        (true, "rf3") => P { nodes: 5, rf: 3, loss: 0.0, partitions: false, primary_only: false, delay: (1, 10), writers: (0, 3), fine: true, burst: false },
+        (true, "rf3_lossy") => P { nodes: 5, rf: 3, loss: 0.2, partitions: false, primary_only: false, delay: (1, 25), writers: (1, 4), fine: false, burst: false },
+        (true, "rf3_partitions") => P { nodes: 6, rf: 3, loss: 0.1, partitions: true, primary_only: false, delay: (1, 25), writers: (1, 5), fine: true, burst: false },
+        (true, "rf2_any_node") => P { nodes: 4, rf: 2, loss: 0.0, partitions: false, primary_only: false, delay: (1, 10), writers: (2, 4), fine: true, burst: false },
+        (true, "burst") => P { nodes: 5, rf: 3, loss: 0.05, partitions: false, primary_only: false, delay: (1, 10), writers: (0, 3), fine: true, burst: true },
+        (true, "busy") => P { nodes: 5, rf: 3, loss: 0.05, partitions: false, primary_only: false, delay: (1, 10), writers: (3, 6), fine: true, burst: false },
         _ => return bad_preset(if partitioned { "multi_partitioned" } else { "multi_broadcast" }, preset),
     };
     let mut sim = if partitioned {
@@ -677,6 +749,27 @@ fn multi(partitioned: bool, seed: u64, preset: &str, n: usize) -> Result<Transcr
             };
             ops += 1;
             t.lines.push(format!("round[{}].op[{}] = {} -> {}", i, j, op, resp));
+        }
+        if p.burst && wl.gen_range(0, 5) == 0 {
+            let node = wl.gen_range(0, p.nodes as u64) as usize;
+            let count = [99usize, 100, 101, 102, 150, 200, 251][wl.gen_range(0, 7) as usize];
+            let distinct = 1 + wl.gen_range(0, count as u64) as usize;
+            for j in 0..count {
+                // distinct keys first, then repeats of them and of the shared keys
+                let key = if j < distinct {
+                    format!("bk{}_{}", node, j)
+                } else if j % 3 == 0 {
+                    shared[j % shared.len()].clone()
+                } else {
+                    format!("bk{}_{}", node, wl.gen_range(0, distinct as u64))
+                };
+                if touched.len() < 40 || key.starts_with("mk") {
+                    touched.insert(key.clone());
+                }
+                sim.execute(j % 4, node, cmd(&["SET", &key, &format!("b{}_{}", i, j)])?);
+            }
+            ops += count as u64;
+            t.lines.push(format!("round[{}].burst = {} writes on node{} ({} distinct keys)", i, count, node, distinct));
         }
         let pending: Vec<usize> = sim.nodes.iter().map(|nd| nd.replica_state.pending_deltas.len()).collect();
         t.lines.push(format!("round[{}].senders = {:?}", i, pending));
